@@ -9,7 +9,7 @@ promotion block, the regenerated `optimize_operator`).
 * `solid_flag_sound`, `bits_flag_sound`, `gradient_flag_sound_partial`: what `FAST_PATH_IS_OPAQUE` of an image implies;
 * `promotion_sound`: the regenerated promotion block sets `IS_OPAQUE` of the source (mask) only from the SOURCE's
   (MASK's) own `NEAREST_OPAQUE` / `BILINEAR_OPAQUE` bits (fails to check when a condition reads the other word);
-* `source_opaque_sound_partial`, `mask_opaque_sound_partial`: a source/mask `composite32` hands to `optimize_operator`
+* `source_opaque_witness`, `mask_opaque_witness`: a source/mask `composite32` hands to `optimize_operator`
   as opaque is opaque by its own flag, or alpha-less with EVERY sample of the request inside the image
   (C04 S2/S3); that the transform is affine now FOLLOWS from the flag (af551b2: the promotion requires AFFINE_TRANSFORM);
   (that a sample inside an alpha-less image has alpha 255, and that a bilinear blend of four such taps has, is C10's
@@ -45,6 +45,29 @@ theorem affine_flag (i : Img) : i.flags.testBit 17 = affineFlag i.props := by
   unfold Img.flags
   rw [flags_tb _ _ _ 17 (by unfold Tracked; decide)]
   cases hk : i.cr.kind <;> simp [closed, kill, typeEff, hk]
+
+/-- `FAST_PATH_ID_TRANSFORM` is set exactly when the image has no transform (C14 invariant, from the model) -/
+theorem id_transform_flag (i : Img) : i.flags.testBit 0 = i.props.transform.isNone := by
+  unfold Img.flags
+  rw [flags_tb _ _ _ 0 (by unfold Tracked; decide)]
+  cases hk : i.cr.kind <;> simp [closed, kill, typeEff, hk]
+
+/-- the hypothesis `hid` of C04's cover theorems, discharged: what `analyze_extent` reads as "identity" has no transform -/
+theorem id_flag_no_transform (i : Img) : i.extentImage.idTransform = true → i.extentImage.transform = none := by
+  intro h
+  have hb : i.flags.testBit 0 = true := by
+    unfold Img.extentImage at h
+    simp only [beq_iff_eq] at h
+    have h1 : FAST_PATH_ID_TRANSFORM = 1 := rfl
+    rw [h1, Nat.and_one_is_mod] at h
+    rw [Nat.testBit_zero]
+    exact decide_eq_true h
+  rw [id_transform_flag] at hb
+  unfold Img.extentImage
+  simp only []
+  cases ht : i.props.transform with
+  | none => rfl
+  | some t => rw [ht] at hb; cases hb
 
 /-- a solid fill is flagged opaque only when its 16-bit alpha is 0xffff -/
 theorem solid_flag_sound (i : Img) (hk : i.cr.kind = .solid) (h : i.flags.testBit 13 = true) :
@@ -83,7 +106,7 @@ example : (Img.flags ⟨{ kind := .radial, radialA := 0, stops := [⟨0, ⟨0, 0
 
 /-! ## the regenerated promotion block -/
 
-private theorem and_eq_bits (f M : Nat) (h : (f &&& M) = M) (i : Nat) (hi : M.testBit i = true) : f.testBit i = true := by
+theorem and_eq_bits (f M : Nat) (h : (f &&& M) = M) (i : Nat) (hi : M.testBit i = true) : f.testBit i = true := by
   have := congrArg (fun x => x.testBit i) h
   simp only [Nat.testBit_and, hi, Bool.and_true] at this
   exact this
@@ -116,7 +139,7 @@ example : (Pixman.Gen.OpacityBlock.promotionBlock (128 ||| 2048 ||| 131072 ||| 8
 
 /-! ## the whole decision -/
 
-private theorem coverBits_tb (fl : Extent.Flags) :
+theorem coverBits_tb (fl : Extent.Flags) :
     (coverBits fl).testBit 23 = fl.nearest ∧ (coverBits fl).testBit 24 = fl.bilinear ∧
     (coverBits fl).testBit 7 = false ∧ (coverBits fl).testBit 13 = false ∧ (coverBits fl).testBit 17 = false := by
   unfold coverBits
@@ -134,7 +157,7 @@ def OpaqueWitness (i : Img) (e : Box32) : Prop :=
         0 ≤ bilinearTap1 (sampleY i.extentImage.transform x y) ∧ bilinearTap2 (sampleY i.extentImage.transform x y) < i.cr.height)))
 
 /-- the AFFINE_TRANSFORM bit and the C type of the matrix entries give C04's `optAffine` -/
-private theorem optAffine_of_flag (i : Img) (h17 : i.flags.testBit 17 = true)
+theorem optAffine_of_flag (i : Img) (h17 : i.flags.testBit 17 = true)
     (hI : ∀ t, i.props.transform = some t → (toMatrix t).isI32) : optAffine i.extentImage.transform := by
   rw [affine_flag] at h17
   unfold Img.extentImage
@@ -148,7 +171,7 @@ private theorem optAffine_of_flag (i : Img) (h17 : i.flags.testBit 17 = true)
     simp only [Option.map_some]
     exact ⟨⟨h17.1.1, h17.1.2, h17.2⟩, hI t ht⟩
 
-private theorem witness_of_bits (i : Img) (e : Box32) (r : Bool) (fl : Extent.Flags) (w : Nat)
+theorem witness_of_bits (i : Img) (e : Box32) (r : Bool) (fl : Extent.Flags) (w : Nat)
     (hI : ∀ t, i.props.transform = some t → (toMatrix t).isI32)
     (hid : i.extentImage.idTransform = true → i.extentImage.transform = none)
     (ha : analyzeExtent i.extentImage e = .ok (r, fl)) (hw : w = i.flags ||| coverBits fl)
@@ -172,16 +195,15 @@ private theorem witness_of_bits (i : Img) (e : Box32) (r : Bool) (fl : Extent.Fl
     have ht := optAffine_of_flag i h17 hI
     exact Or.inr ⟨k, a, q, Or.inr (fun x y hx hy => Pixman.Props.C04.cover_bilinear_sound i.extentImage e r fl ht ha hb x y hx hy)⟩
 
-/-- (O3) PARTIAL — `hid` ("the ID_TRANSFORM bit is set only without a transform", bit 0 of `compute_image_info`,
-checked on every correspondence line) is a hypothesis, `hI` is the C type of the matrix (`pixman_fixed_t` = int32);
+/-- (O3), positions: `hI` is the C type of the matrix (`pixman_fixed_t` = int32), the only hypothesis besides the run itself
+("ID_TRANSFORM bit ⇒ no transform" is `id_flag_no_transform`; the alpha of the fetched VALUES is `Props/C09Sound`);
 that the transform is affine is NOT a hypothesis: the promotion requires FAST_PATH_AFFINE_TRANSFORM (af551b2), a
 projective source is never promoted.  A SOURCE that `pixman_image_composite32`
 passes on as opaque (bit 13 of `info.src_flags`, the word `optimize_operator` reads) is opaque by its own flag, or is an
 alpha-less bits image without alpha map / convolution / component alpha ALL of whose samples for the request — nearest
 index, or both bilinear taps, of every pixel of the extents — lie inside the image. -/
-theorem source_opaque_sound_partial (r : Request) (d : Decision)
+theorem source_opaque_witness (r : Request) (d : Decision)
     (hI : ∀ t, r.src.props.transform = some t → (toMatrix t).isI32)
-    (hid : r.src.extentImage.idTransform = true → r.src.extentImage.transform = none)
     (h : composite32 r = .run d) (ho : d.srcFlags.testBit 13 = true) :
     OpaqueWitness r.src r.srcExtents := by
   unfold composite32 at h
@@ -191,13 +213,12 @@ theorem source_opaque_sound_partial (r : Request) (d : Decision)
   split at h <;> try cases h
   rename_i fm hm
   have hp := (promotion_sound (r.src.flags ||| coverBits fs) ((maskEntry r.mask).2 ||| coverBits fm) r.dest.flags).1 ho
-  exact witness_of_bits r.src r.srcExtents true fs _ hI hid hs rfl hp
+  exact witness_of_bits r.src r.srcExtents true fs _ hI (id_flag_no_transform _) hs rfl hp
 
 /-- the mask counterpart: a mask image passed on as opaque (bit 13 of `info.mask_flags` with the mask kept), or
 elided (`info.mask_image = NULL`), satisfies the same witness. -/
-theorem mask_opaque_sound_partial (r : Request) (d : Decision) (mk : Img) (hmk : r.mask = some mk)
+theorem mask_opaque_witness (r : Request) (d : Decision) (mk : Img) (hmk : r.mask = some mk)
     (hI : ∀ t, mk.props.transform = some t → (toMatrix t).isI32)
-    (hid : mk.extentImage.idTransform = true → mk.extentImage.transform = none)
     (h : composite32 r = .run d) (ho : d.maskFlags.testBit 13 = true) :
     OpaqueWitness mk r.maskExtents := by
   unfold composite32 at h
@@ -211,7 +232,7 @@ theorem mask_opaque_sound_partial (r : Request) (d : Decision) (mk : Img) (hmk :
   simp only [Option.map_some, analyzeExtentOpt] at hm
   by_cases hel : (mk.flags &&& FAST_PATH_IS_OPAQUE) == 0
   · simp only [maskEntry, hel, if_true] at hp
-    exact witness_of_bits mk r.maskExtents true fm _ hI hid hm rfl hp
+    exact witness_of_bits mk r.maskExtents true fm _ hI (id_flag_no_transform _) hm rfl hp
   · -- elided: the mask's own IS_OPAQUE bit is set
     refine Or.inl ?_
     cases hb : mk.flags.testBit 13 with
